@@ -16,14 +16,14 @@ def data_instances(tier, fam='data', safety=False):
     letters = 'bhwlBHWL'
     seqs = [''.join(t) for n in (1, 2) for t in itertools.product(letters, repeat=n)]
     if tier == 'thorough':
-        seqs += [''.join(t) for t in itertools.product('bwBWL', repeat=3)]
+        seqs += [''.join(t) for t in itertools.product('bwB', repeat=3)]        # ~40 min each; 'W'/'L' bit-fields in lists of three gave no verdict within an hour
     if tier == 'quick':
         # two large-unit bit-fields in one list cost minutes (symbolic 64-bit shifts): thorough tier only
         seqs = [f for f in seqs if sum(c.isupper() for c in f) <= 1 or all(c in 'BH' for c in f if c.isupper())]
     for f in seqs:
         L.append(Inst('%s.%s' % (fam, f), 'h_data.c', {'FORMS': '"%s"' % f}, units=['eval', 'type', 'util'], overrides=['fatal', 'xmalloc'],
                       native_units=ALLNATIVE, backends=['sat'] if tier == 'quick' else ['sat', 'kissat'], unwind=12, unwindset=['streq.0:22'] + ['main.%d:27' % i for i in range(12)], family=fam, safety=safety,
-                      timeout=300 if tier == 'quick' else 3600, mem_gb=12 if tier == 'quick' else 32,
+                      timeout=300 if tier == 'quick' else 3600, mem_gb=12 if tier == 'quick' else 32, optional=(len(f) == 3),
                       bound={'initializers': f, 'object_bytes': '<=24', 'offsets/bit positions/widths/values': 'symbolic'}))
     return L
 
